@@ -177,7 +177,9 @@ def run(rep, pid, feats, n, findings, rule, gover="1.21", tapes=3, histlen=10, b
         hit = shapes[name] & set(findings)
         if hit:
             known_seen |= hit
-        elif judge_compile:
+        elif judge_compile or name.startswith("oc."):
+            # the hand-written corpus programs (lib/optcorpus.py) are known to compile and build on the unchanged tree:
+            # one that is rejected or no longer builds is a failing input for every property whose check runs it
             unexplained.append((name, None))
     for f in sorted(known_seen):
         rep.known.append("%s %s" % (f, FINDINGS[f]))
